@@ -73,7 +73,11 @@ def cast(x, y):
         if isinstance(x, int) and isinstance(y, float):
             raise TypeError("Cannot cast value from float to int")
 
-        ycast = type(x)(y)
+        if isinstance(x, np.ndarray):
+            # 0d array: ndarray(y) would take y as a shape
+            ycast = np.array(y).astype(x.dtype, casting="safe")
+        else:
+            ycast = type(x)(y)
 
     else:
         # x is a numpy array
